@@ -136,6 +136,7 @@ typedef struct {
     int      bad_server_cert;/* client CA list does not contain server's issuer */
     int      no_cert_cb;     /* register no cert callback (default: strict callback returning alert) */
     int      ems_off;        /* disable extended master secret on client */
+    int      hrr;            /* TLS 1.3: the client offers {P-256, P-384} with a key share for P-256 only, the server supports P-384 only: HelloRetryRequest */
     uint64_t seed;
 } wcfg_t;
 
